@@ -17,6 +17,7 @@ int main(int argc, char *argv[]) {
     po::options_description desc("usage");
     desc.add_options()("cores,c", po::value<int>(), "cores")("verbose,v", po::value<bool>()->default_value(false), "v")(
             "parallel,p", po::value<bool>()->default_value(true), "p");
+    po::store(po::parse_environment(desc, "PARMCB_"), vm);      // R20d: stored first, overrides the command line
     po::store(po::parse_command_line(argc, argv, desc), vm);
     if (vm.count("cores")) {
         std::size_t cores = vm["cores"].as<int>();
